@@ -373,7 +373,65 @@ def codes(s):
     return '[' + '; '.join('%d' % b for b in s.encode('utf-8')) + ']%Z'
 
 
+ALLOWED_FORMATTED = {
+    'self.version_major', 'self.version_minor', 'self.version_revision',       # [VERSION]
+    'keys[block_counter]', 'values[block_counter]', 'values[block_counter][i]',  # [DEFINITIONS]
+    "self.get_extension_type_ID('TRIGGERS')", 'tid',                           # extension headers
+    'md5',                                                                       # [SIGNATURE]
+}
+
+
+def check_written_expressions():
+    """every output_file.write(...) of write(): a string literal, an f-string over the modelled values only, a text
+    definition + ' ', or a row `s` produced by str.format of a literal format over library data.  Anything else (a
+    date, a path, a host name, an environment value ...) makes the file depend on something the model does not know:
+    fail closed."""
+    tree, _ = parse(W)
+    fn = func(tree, 'write')
+    writes = [n for n in ast.walk(fn) if isinstance(n, ast.Call) and unparse(n.func) == 'output_file.write']
+    expect(len(writes) >= 40, 'write(): output_file.write calls not found')
+    for n in writes:
+        expect(len(n.args) == 1 and not n.keywords, 'write(): unexpected call shape %s' % unparse(n))
+        a = n.args[0]
+        if isinstance(a, ast.Constant) and isinstance(a.value, str):
+            continue
+        if isinstance(a, ast.JoinedStr):
+            for v in a.values:
+                if isinstance(v, ast.FormattedValue):
+                    src = unparse(v.value)
+                    expect(src in ALLOWED_FORMATTED, 'write(): the file contains a value the model does not know: {%s} in %s'
+                           % (src, unparse(a)))
+            continue
+        if unparse(a) in ("values[block_counter] + ' '", 's'):
+            continue
+        raise TranslateError('write(): unexpected text written to the file: %s' % unparse(a))
+    # rows: `s` is only ever the result of str.format on a literal format (or id_format_str)
+    for n in ast.walk(fn):
+        if isinstance(n, ast.Assign) and len(n.targets) == 1 and unparse(n.targets[0]) == 's':
+            v = n.value
+            ok = isinstance(v, ast.Call) and isinstance(v.func, ast.Attribute) and v.func.attr == 'format'
+            expect(ok, 'write(): row text is not produced by str.format: %s' % unparse(n))
+            base = v.func.value
+            expect(unparse(base) == 'id_format_str' or (isinstance(base, ast.Constant) and isinstance(base.value, str))
+                   or unparse(base) == "'{:.9g}\\n' * len(shape_data[1:])", 'write(): unexpected row format source: %s' % unparse(base))
+    # the first two writes are the fixed header
+    first = [unparse(n.args[0]) for n in sorted(writes, key=lambda c: (c.lineno, c.col_offset))[:3]]
+    expect(first == ["'# Pulseq sequence file\\n'", "'# Created by PyPulseq\\n\\n'", "'[VERSION]\\n'"], 'write(): header lines changed: %s' % first)
+    tids = [unparse(n.value) for n in ast.walk(fn) if isinstance(n, ast.Assign) and unparse(n.targets[0]) == 'tid']
+    expect(sorted(tids) == ["self.get_extension_type_ID('LABELINC')", "self.get_extension_type_ID('LABELSET')"], 'write(): tid source changed')
+    # nothing but the file itself is opened, nothing ambient is imported into the module
+    mods = set()
+    for n in tree.body:
+        if isinstance(n, ast.Import):
+            mods |= {a.name.split('.')[0] for a in n.names}
+        elif isinstance(n, ast.ImportFrom):
+            mods.add((n.module or '').split('.')[0])
+    extra = mods - {'hashlib', 'pathlib', 'typing', 'numpy', 'pypulseq'}
+    expect(not extra, 'write_seq.py imports modules the model does not know: %s' % sorted(extra))
+
+
 def sec_file():
+    check_written_expressions()
     T, def_fmt, shape_fmt = write_tables()
     S, extra = read_tables()
     out = HEADER % 'Sequence/write_seq.py (format strings, multipliers), Sequence/read_seq.py (1.4 scale tuples, definitions)'
